@@ -78,6 +78,46 @@ Proof.
   repeat split; intros [] t H; vm_compute in H; inversion H; subst t; vm_compute; reflexivity.
 Qed.
 
+(* ---------------------------------------------------------------- what reaches encoding/binary *)
+Definition bin_wrappers : list string := ["AppendRecord"; "BinRead"; "BinWrite"; "SubstituteRecord"].
+Definition bin_args_ok (c : cfg) : bool :=
+  forallb (fun n => mem_str n strict_disk_records) (bin_raw_structs c)
+  && forallb (fun n => mem_str n ["FavBoard"; "FavLine"; "FavFolder"]) (bin_padded_structs c)
+  && forallb (fun n => negb (mem_str n ["UserInfoRaw"; "MsgQueueRaw"; "SHMRaw"; "shmGV2"])) (bin_raw_structs c ++ bin_padded_structs c)
+  && forallb (fun n => mem_str n bin_wrappers) (bin_passthrough c)
+  && match bin_other c with [] => true | _ => false end
+  && forallb (fun n => match lookup n (env c) with Some _ => true | None => false end) ["FavBoard"; "FavLine"].
+
+Lemma mem_str_In n l : mem_str n l = true -> In n l.
+Proof.
+  unfold mem_str. rewrite existsb_exists. intros (x & Hx & He). apply String.eqb_eq in He. subst. exact Hx.
+Qed.
+
+Lemma only_records_serialised_partial : forall c,
+  (forall n, In n (bin_raw_structs c) -> In n strict_disk_records) /\
+  (forall n, In n (bin_padded_structs c) -> (n = "FavBoard" \/ n = "FavLine") /\ lookup n (env c) <> None \/ n = "FavFolder") /\
+  (forall n, In n (bin_raw_structs c ++ bin_padded_structs c) -> ~ In n ["UserInfoRaw"; "MsgQueueRaw"; "SHMRaw"; "shmGV2"]) /\
+  (forall f, In f (bin_passthrough c) -> In f bin_wrappers) /\
+  bin_other c = [].
+Proof.
+  intros c. assert (H : bin_args_ok c = true) by (destruct c; vm_compute; reflexivity).
+  unfold bin_args_ok in H.
+  apply andb_prop in H. destruct H as [H Hlk]. apply andb_prop in H. destruct H as [H Hoth].
+  apply andb_prop in H. destruct H as [H Hpass]. apply andb_prop in H. destruct H as [H Hbad].
+  apply andb_prop in H. destruct H as [Hraw Hpad].
+  rewrite forallb_forall in Hlk, Hpass, Hbad, Hraw, Hpad. repeat split.
+  - intros n Hn. apply mem_str_In. auto.
+  - intros n Hn. specialize (Hpad n Hn). apply mem_str_In in Hpad. cbn [In] in Hpad.
+    destruct Hpad as [<-|[<-|[<-|[]]]]; [left|left|right; reflexivity].
+    + split; [left; reflexivity|]. specialize (Hlk "FavBoard" ltac:(cbn; auto)). destruct (lookup "FavBoard" (env c)); [discriminate|discriminate].
+    + split; [right; reflexivity|]. specialize (Hlk "FavLine" ltac:(cbn; auto)). destruct (lookup "FavLine" (env c)); [discriminate|discriminate].
+  - intros n Hn Hb. specialize (Hbad n Hn). assert (Hm : mem_str n ["UserInfoRaw"; "MsgQueueRaw"; "SHMRaw"; "shmGV2"] = true).
+    { unfold mem_str. apply existsb_exists. exists n. split; [exact Hb|apply String.eqb_refl]. }
+    rewrite Hm in Hbad. discriminate.
+  - intros f Hf. apply mem_str_In. auto.
+  - destruct (bin_other c); [reflexivity|discriminate].
+Qed.
+
 (* ---------------------------------------------------------------- the frozen pttbbs layout *)
 Definition same_as_frozen_any_cfg : list string :=
   ["UserecRaw"; "Userec2Raw"; "BoardHeaderRaw"; "FileHeaderRaw"; "FavBoard"; "MsgQueueRaw"].
@@ -260,3 +300,6 @@ Example codec_nonvacuous :
   exists t, lookup "FavBoard" (env Default) = Some t /\ wt t (VList [VInt 12; VInt (-3); VInt (-128)]) = true /\
             encode t (VList [VInt 12; VInt (-3); VInt (-128)]) = [12; 0; 0; 0; 253; 255; 255; 255; 128].
 Proof. eexists. split; [vm_compute; reflexivity|]. vm_compute. split; reflexivity. Qed.
+
+Lemma favfolder_not_record : forall c, lookup "FavFolder" (env c) = None.
+Proof. intros []; vm_compute; reflexivity. Qed.
